@@ -421,3 +421,12 @@ func (w *Writer) writeIndirect(num, gen int, o Obj) {
 	w.buf.WriteString(sim.Pick(w.r, []string{w.eol(), "\n", "\r\n"}))
 	w.buf.WriteString("endstream" + w.eol() + "endobj" + w.eol())
 }
+
+// OldestContainer returns the lowest-numbered live object stream, or 0.
+func (w *Writer) OldestContainer() int {
+	nums := SortedNums(w.members)
+	if len(nums) == 0 {
+		return 0
+	}
+	return nums[0]
+}
